@@ -43,7 +43,11 @@
                           exclude reserved declarations and the PI target `xml`
     C02_fragment_spelled_ns   the same relation between parse_fragment(t) and parse(<w>t</w>) with namespaces
     C02_positions_irrelevant  byte positions and whole-token spans of the tokens do not influence the
-                          tree, the interning tables or the id map a parse returns, nor whether it fails
+                          tree, the interning tables or the id map a parse returns, nor whether it fails -
+                          for lists in which every empty prefix has offset 0 (`tokensPrefixOk`: the ONE
+                          position xot reads since /repo a5fafb0, `check_qname`; true of every accepted
+                          list, every erased list and every layout the tokenizer reads back);
+                          `_erased`: the erased list decides; closed counterexample without the hypothesis
     C02_lexical_layout / _fragment / _document / _prolog / _declaration / _bom   ON STRINGS, through the
                           reference tokenizer (Model/Lex*.lean, tied to xmlparser by the `lex` suite): for
                           every well-formed spelling and EVERY layout of its tokens — either quote per
